@@ -47,7 +47,7 @@ def b_uci(g):
 
 
 UCI = {'name': 'uci', 'build': b_uci, 'rlimit': 60, 'rlimits': {'make_move': 400},
-       'units_filter': lambda u: u in ('make_move', 'Square::from', 'lemma_castle_shape', 'lemma_step_closure', 'lemma_castle_closure', 'lemma_chain_closure', 'lemma_after_board_cells', 'lemma_ray_offrow', 'lemma_castled_row_safe', 'lemma_target_not_king', 'lemma_slider_on_board', 'lemma_slider_target_attacked', 'lemma_knight_target_attacked', 'lemma_clear_sym', 'lemma_key_component', 'lemma_placement_update', 'lemma_xor_swap', 'placement_hash', 'lemma_mul_unit')}
+       'units_filter': lambda u: u.startswith(('BoardState::', 'ZobristHasher::')) or u in ('PieceKind::index', 'Piece::index', 'PieceColor::opposite', 'Piece::pawn', 'Piece::king', 'Square::eq', 'make_move', 'Square::from', 'lemma_castle_shape', 'lemma_step_closure', 'lemma_castle_closure', 'lemma_chain_closure', 'lemma_after_board_cells', 'lemma_ray_offrow', 'lemma_castled_row_safe', 'lemma_target_not_king', 'lemma_slider_on_board', 'lemma_slider_target_attacked', 'lemma_knight_target_attacked', 'lemma_clear_sym', 'lemma_key_component', 'lemma_placement_update', 'lemma_xor_swap', 'placement_hash', 'lemma_mul_unit')}
 MOVEGEN = {'name': 'movegen', 'build': b_targets, 'rlimit': 60,
            'rlimits': {'generate_moves_for_piece': 400, 'generate_castling_moves': 300},
            'canary_quick': ['is_check', 'is_check_cords', 'get_moves', 'promote_pawn', 'pawn_moves_en_passant', 'knight_moves', 'generate_moves']}
